@@ -1244,6 +1244,62 @@ func c08RealBinary(run *common.Run, p int, dir string) {
 // openat(O_CREAT) ... that one of its threads makes. The same generated program is run from scratch for N = 1, 2, ...
 // until a run completes without the injection firing; after each death the directory is restarted without strace
 // and must serve the acknowledged state, the request that was in flight being wholly applied or wholly absent.
+// c08DirectedDropStep is the program of the fifth syscall-kill group (see c08SyscallKills).
+func c08DirectedDropStep(step int) c08Req {
+	name := drive.TableName(c14Parents[0], "t")
+	put := func(key string) c08Req {
+		muts := []model.Mut{{Kind: model.SetCell, Fam: "f1", Qual: "q", TS: 1000, Val: "v-" + key}}
+		return c08Req{desc: fmt.Sprintf("MutateRow(t,%q)", key), valid: true,
+			send: func(s *drive.Srv) drive.Status { return drive.MutateRow(s.Data, name, key, muts) },
+			apply: func(reg c14Registry) {
+				_, nr := reg[name].Apply(key, muts, gen.BaseClock)
+				reg[name].Commit(key, nr)
+			}}
+	}
+	drop := func(prefix string, all bool) c08Req {
+		return c08Req{desc: fmt.Sprintf("DropRowRange(t, all=%v, %q)", all, prefix), valid: true,
+			send: func(s *drive.Srv) drive.Status {
+				rq := &btapb.DropRowRangeRequest{Name: name, Target: &btapb.DropRowRangeRequest_RowKeyPrefix{RowKeyPrefix: []byte(prefix)}}
+				if all {
+					rq.Target = &btapb.DropRowRangeRequest_DeleteAllDataFromTable{DeleteAllDataFromTable: true}
+				}
+				ctx, cancel := drive.Ctx()
+				defer cancel()
+				_, err := s.Admin.DropRowRange(ctx, rq)
+				return drive.StatusOf(err)
+			},
+			apply: func(reg c14Registry) {
+				for key := range reg[name].Rows {
+					if all || strings.HasPrefix(key, prefix) {
+						delete(reg[name].Rows, key)
+					}
+				}
+			}}
+	}
+	keys := []string{"a1", "a2", "a3", "a4", "a5", "a6", "a7", "a8", "b1", "b2"}
+	switch {
+	case step == 0:
+		return c08Req{desc: "CreateTable(t,{f1})", valid: true,
+			send: func(s *drive.Srv) drive.Status {
+				return drive.CreateTable(s.Admin, c14Parents[0], "t", map[string]*model.GcRule{"f1": nil})
+			},
+			apply: func(reg c14Registry) { reg[name] = model.NewTable("f1") }}
+	case step <= 10:
+		return put(keys[step-1])
+	case step == 11:
+		return drop("a", false)
+	case step <= 15:
+		return put([]string{"a9", "b3", "b4", "c1"}[step-12])
+	case step == 16:
+		return drop("b", false)
+	case step == 17:
+		return put("b9")
+	case step == 18:
+		return drop("", true)
+	}
+	return c08Req{}
+}
+
 func c08SyscallKills(run *common.Run, base string) {
 	if _, err := exec.LookPath("strace"); err != nil {
 		run.Inconclusive("strace not available")
@@ -1251,7 +1307,10 @@ func c08SyscallKills(run *common.Run, base string) {
 	}
 	self, _ := os.Executable()
 	kf03 := run.KnownOpen("KF03")
-	syscalls := []string{"unlinkat", "renameat,renameat2,rename", "mkdirat,mkdir", "write,pwrite64"}
+	// (the fifth group kills at write calls again, over a directed program: rows a1..a8, b1, b2 with small values, then
+	// DropRowRange by prefix "a", more rows, prefix "b", delete-all: a drop of several rows is one request and must be
+	// wholly applied or wholly absent wherever the process dies inside it)
+	syscalls := []string{"unlinkat", "renameat,renameat2,rename", "mkdirat,mkdir", "write,pwrite64", "write,pwrite64"}
 	// the program of the write group stores values of 40 and 100 KiB: one journal record then spans several 32 KiB
 	// journal blocks, i.e. several write(2) calls, and the process is killed between them
 	hugeVals := []string{strings.Repeat("J", 100<<10), strings.Repeat("k", 40<<10), "v", strings.Repeat("m", 33<<10)}
@@ -1356,6 +1415,12 @@ func c08SyscallKills(run *common.Run, base string) {
 				// every second request of the write group is a data write
 				for tries := 0; tries < 200 && !strings.HasPrefix(req.desc, "MutateRow"); tries++ {
 					req = c08Gen(r, reg, kf03, false, firstDef, pool...)
+				}
+			}
+			if jb.sc == 4 {
+				req = c08DirectedDropStep(step)
+				if req.send == nil {
+					break
 				}
 			}
 			st := req.send(srv)
